@@ -140,6 +140,8 @@ class Emitter:
         s.hint_prims = set(spec.get('hint_prims', ['poll', 'sched_yield', 'usleep']))
         s.warnings = []
         s.stats = {}
+        s.cur_mode = 'resumable'
+        s.plain_calls = spec.get('plain_calls', True)
         s.inliner = Inliner(mod, s.is_prim, spec.get('indirect_filter'), stub_map=spec.get('stub_map'),
                             indirect_hook=spec.get('indirect_hook'), indirect_only=spec.get('indirect_only'))
         s.used_globals = set()
@@ -148,6 +150,8 @@ class Emitter:
         s.messages = []
 
     def is_prim(s, n):
+        if s.cur_mode == 'plain' and s.plain_calls and n in s.mod.functions:
+            return True          # sequential code keeps its call structure (each callee is emitted once per slot and called)
         return n in s.stubs or n in s.atomic or n not in s.mod.functions
 
     # ------------------------------------------------------------------ globals
@@ -366,6 +370,8 @@ class Emitter:
     # ------------------------------------------------------------------ function instances
     def instance(s, fname, slot, mode, prefix):
         """emit one instance; returns C text"""
+        s.cur_mode = mode
+        s.inliner.mode_tag = mode if s.plain_calls else ''
         f = s.inliner.inline_root(fname)
         ctx = Inst(s, f, slot, mode, prefix)
         txt = ctx.emit()
@@ -661,8 +667,8 @@ class Inst:
         s.vis_desc.append('spin hint')
         s.vis_block[k] = s.cur_block
         if s.walk:
-            s.body.append('if (rt_solo && !rt_spun[%d]) { rt_spun[%d] = 1; } else { %s_pc = %d; rt_spun[%d] = 1; m = RT_STOP; }'
-                          % (s.slot, s.slot, s.prefix, k, s.slot))
+            s.body.append('rt_ever_waited[%d] = 1; if (rt_solo && !rt_spun[%d]) { rt_spun[%d] = 1; } else { %s_pc = %d; rt_spun[%d] = 1; m = RT_STOP; }'
+                          % (s.slot, s.slot, s.slot, s.prefix, k, s.slot))
             s.body.append(Ctl('if (m == RT_SKIP && %s_pc == %d) m = RT_RUN; /* V%d resume after spin hint */' % (s.prefix, k, k)))
         else:
             s.body.append('if (rt_solo && !rt_spun[%d]) { rt_spun[%d] = 1; } else { %s_pc = %d; rt_spun[%d] = 1; return; } V%d: ; /* resume after spin hint */'
@@ -962,6 +968,10 @@ class Inst:
                  'rt_nondet_u8', 'rt_stamp', 'rt_self', 'rt_gset', 'rt_gget', 'rt_bset', 'rt_bget'):
             s.emit_rt_builtin(n, ins, res)
             return
+        if not s.resumable and em.plain_calls and n in s.mod.functions and n not in em.stubs:
+            em.atomic_needed.add((n, s.slot))
+            body.append('%sF%d_%s(%s);' % (res, s.slot, san(n), ', '.join(s.v(a) for a in args)))
+            return
         if n in em.atomic:
             # plain-mode harness function executed as one step
             em.atomic_needed.add((n, s.slot))
@@ -1079,8 +1089,8 @@ class Inst:
 
     def block_check(s):
         if s.resumable and s.walk:
-            s.body.append('if (rt_block) { rt_block = 0; rt_blocked[%d] = 1; %s_pc = %d; m = RT_STOP; }' %
-                          (s.slot, s.prefix, s.nvis))
+            s.body.append('if (rt_block) { rt_block = 0; rt_blocked[%d] = 1; rt_ever_waited[%d] = 1; %s_pc = %d; m = RT_STOP; }' %
+                          (s.slot, s.slot, s.prefix, s.nvis))
             # statements after a blocking primitive must not run when it blocked: close the RUN group here
             s.body.append(Ctl('/* after blocking primitive */'))
         elif s.resumable:
